@@ -312,6 +312,65 @@ fn part_a(tier: &str, st: &mut Stats) {
     st.states.insert(4);
 }
 
+/// (A2) every ordered pair of value classes as an in-place transition of one document's value
+/// (update_metadata keeps the internal id, overwrite allocates a new one), with a bystander
+/// document of every class; all leaves on that key are evaluated after the transition.
+fn part_a2(st: &mut Stats) {
+    let ls: Vec<F> = leaves().into_iter().filter(|f| match f { F::Exact(k, _) | F::In(k, _) | F::Range(k, _) => k == "a", _ => true }).collect();
+    let mut filters = ls.clone();
+    filters.extend(ls.iter().map(|l| F::Not(Some(Box::new(l.clone())))));
+    let cfg = bcfg(64);
+    for how in ["merge", "replace", "overwrite", "delete-reinsert"] {
+        for x in 0..=VALUES.len() {
+            let scratch = Scratch::new("c11a2");
+            let dir = scratch.path.join("d");
+            let b = cfg.open_fresh(&dir).expect("open");
+            let mut model: BTreeMap<u64, Meta> = BTreeMap::new();
+            // bystanders: one document per class
+            for i in 0..VALUES.len() {
+                let m = meta2(Some(i), Some((i + 1) % 16));
+                b.insert(300 + i as u64, vec![i as f32, 7.0], to_hash(&m)).unwrap();
+                model.insert(300 + i as u64, m);
+            }
+            for y in 0..=VALUES.len() {
+                let mx = meta2(if x < 16 { Some(x) } else { None }, Some(0));
+                let my = meta2(if y < 16 { Some(y) } else { None }, Some(0));
+                let id = 200u64;
+                let _ = b.delete(id);
+                b.insert(id, vec![1.0, 1.0], to_hash(&mx)).unwrap();
+                match how {
+                    "merge" => {
+                        // merge cannot remove a key: absent target means "unchanged"
+                        b.update_metadata(id, to_hash(&my), true).unwrap();
+                        let mut cur = mx.clone();
+                        for (k, v) in &my {
+                            cur.insert(k.clone(), v.clone());
+                        }
+                        model.insert(id, cur);
+                    }
+                    "replace" => {
+                        b.update_metadata(id, to_hash(&my), false).unwrap();
+                        model.insert(id, my.clone());
+                    }
+                    "overwrite" => {
+                        b.insert(id, vec![2.0, 2.0], to_hash(&my)).unwrap();
+                        model.insert(id, my.clone());
+                    }
+                    _ => {
+                        b.delete(id).unwrap();
+                        b.insert(id, vec![3.0, 3.0], to_hash(&my)).unwrap();
+                        model.insert(id, my.clone());
+                    }
+                }
+                st.states.insert(10_000 + (x * 100 + y) as u64);
+                if !check_filters(&b, &model, &filters, &json!({"part":"A2","how":how,"from":VALUES.get(x),"to":VALUES.get(y)}), st) {
+                    return;
+                }
+            }
+        }
+    }
+}
+
 #[derive(Clone, Debug, serde::Serialize, serde::Deserialize)]
 enum HOp {
     Ins(u64, Option<usize>, Option<usize>),
@@ -531,6 +590,7 @@ pub fn run(tier: &str, replay: Option<&str>) -> i32 {
     }
     let mut tot = Stats::default();
     part_a(tier, &mut tot);
+    part_a2(&mut tot);
     let a_evals = tot.filter_evals;
     merge(&mut tot, part_b(tier));
     merge(&mut tot, part_c(tier));
@@ -545,7 +605,7 @@ pub fn run(tier: &str, replay: Option<&str>) -> i32 {
     ev.set("traces_validated_against_impl", tot.histories);
     ev.set("evaluations", tot.filter_evals + tot.deletes_checked);
     ev.set("distinct_nontrivial", tot.nonempty_selections);
-    ev.set("rule", "(A) every filter tree of depth <= 2 over all leaves (Exact/In/Range with 4 operators + missing bound over 16 value classes x keys {a,b}, empty forms; thorough: full pairing and depth 3 over representative leaves) on a 17-document collection covering every value class, evaluated fresh, after overwrites/merges/replaces/deletes/re-inserts, after forced tombstone compaction and after snapshot+recovery; (B) all histories up to the depth over an 11-letter alphabet on ids {1,2,3} with index capacity 3 (tombstone compaction) and restarts, every leaf + representative trees after each step; (C) every history up to the depth on TieredEngine (insert, bulk load bypassing the hot tier, metadata merge/replace, delete, drain) followed by batch_delete_by_metadata_filter for 6 filters: exact set removed, exact count returned. Oracle: independent reference evaluator (cross-checked against metadata_filter::matches on every pair). non-trivial = evaluations whose expected selection is non-empty");
+    ev.set("rule", "(A) every filter tree of depth <= 2 over all leaves (Exact/In/Range with 4 operators + missing bound over 16 value classes x keys {a,b}, empty forms; thorough: full pairing and depth 3 over representative leaves) on a 17-document collection covering every value class, evaluated fresh, after overwrites/merges/replaces/deletes/re-inserts, after forced tombstone compaction and after snapshot+recovery; (A2) every ordered pair of value classes (and absence) as an in-place value transition of one document by merge / replace / overwrite / delete+reinsert, all leaves and their negations on that key afterwards; (B) all histories up to the depth over an 11-letter alphabet on ids {1,2,3} with index capacity 3 (tombstone compaction) and restarts, every leaf + representative trees after each step; (C) every history up to the depth on TieredEngine (insert, bulk load bypassing the hot tier, metadata merge/replace, delete, drain) followed by batch_delete_by_metadata_filter for 6 filters: exact set removed, exact count returned. Oracle: independent reference evaluator (cross-checked against metadata_filter::matches on every pair). non-trivial = evaluations whose expected selection is non-empty");
     ev.set("samples", json!([{"filter": format!("{:?}", leaves()[40]), "values": VALUES}, {"filter": format!("{:?}", trees_depth2(&representative_leaves(), &representative_leaves())[7])}]));
     ev.set("exhaustive", true);
     ev.set("part_a_filter_evaluations", a_evals);
